@@ -9,6 +9,7 @@ package PKGNAME
 import (
 	"encoding/json"
 	"fmt"
+	"math/rand"
 	"os"
 	"runtime"
 	"time"
@@ -156,7 +157,27 @@ func vOr(a, b bool) bool  { return a || b }
 func vNot(a bool) bool    { return !a }
 func vImp(a, b bool) bool { return !a || b }
 
-func verifYield()                             { runtime.Gosched() }
+// verifYield is a scheduling point. Natively, with VERIF_JITTER set, it sleeps for a random
+// few hundred microseconds so that repeated replays visit different interleavings.
+func verifYield() {
+	if verifJitter() {
+		time.Sleep(time.Duration(rand.Intn(300)) * time.Microsecond)
+		return
+	}
+	runtime.Gosched()
+}
+
+var verifJitterOn = -1
+
+func verifJitter() bool {
+	if verifJitterOn < 0 {
+		verifJitterOn = 0
+		if os.Getenv("VERIF_JITTER") != "" {
+			verifJitterOn = 1
+		}
+	}
+	return verifJitterOn == 1
+}
 
 // verifWait yields; natively it always reports that somebody else may have run.
 func verifWait() bool {
